@@ -403,6 +403,36 @@ def local_defs(func, name):
     return out
 
 
+def flag_true_implies(func, name, target, seen=None):
+    """Whenever the local flag ``name`` is truthy, did ``target`` hold where it was set?
+    Every definition is a falsy constant, or sits under guards implying target, or is an
+    expression whose truth (with the guards) implies target, or copies another such flag.
+    At least one definition must be able to make it truthy."""
+    seen = seen or set()
+    if name in seen:
+        return False
+    seen = seen | {name}
+    contributing = 0
+    for st, v in local_defs(func, name):
+        if not isinstance(v, ast.expr):
+            return False
+        if isinstance(v, ast.Constant) and not v.value:
+            continue
+        contributing += 1
+        gs = guards(st)
+        if guards_imply(gs, target):
+            continue
+        if isinstance(v, ast.Name):
+            if flag_true_implies(func, v.id, target, seen):
+                continue
+            return False
+        if isinstance(v, ast.Constant):
+            return False
+        if not guards_imply(gs + [(v, True)], target):
+            return False
+    return contributing > 0
+
+
 def derives_from(func, expr, pred, depth=0, seen=None):
     """Some sub-expression of ``expr`` (through local assignments) satisfies pred."""
     seen = seen if seen is not None else set()
